@@ -14,12 +14,17 @@
 (*   "ml"   f( / V / )           a match over three physical lines           *)
 (*   "blk"  if c: / f(V)         an indented match                           *)
 (*   "ig"   f(V)  # pyrefact: ignore      a match on an ignored line         *)
+(*   "igml" f( / V  # pyrefact: ignore / )   ignore comment on a middle line *)
+(*   "igend" f( / V / )  # pyrefact: ignore  ignore comment on the last line *)
+(*   "blk2" if c: / if d: / f(V)  a match indented by eight columns          *)
 (*   "n"    g(V)                 no match (for pattern "seq": the 2nd half)  *)
 (* Patterns: "callf" f({{x}});  "seq" f({{x}}) / g({{y}}) (two consecutive   *)
 (* statements "m","n");  "absent" q({{x}}).                                   *)
 (* Replacements: "const" h()  "one" h({{x}})  "twice" h({{x}}, {{x}})         *)
 (*   "self" the pattern itself   "sum" {{x}} + 1   "mul" {{x}} * 2            *)
 (*   "neg" -{{x}}     (for "seq": "k2" k({{x}}, {{y}}), "self")               *)
+(*   "ifstmt" if {{x}}: / h({{x}})   a compound statement (only where the     *)
+(*            match is a whole statement)                                     *)
 (* Bound values: "atom" (a name) or "sum" (a + b).                            *)
 (*                                                                         *)
 (* IDEAL: the result is the module in which an ADMISSIBLE set of matches is  *)
@@ -46,10 +51,10 @@ CONSTANTS StmtKinds, Patterns, Repls, Binds, Counts, MaxStmts
 
 \* matches a statement kind contributes for pattern "callf": <<depth, ignored>>; depth 0 = outermost
 MatchesIn(kind) ==
-    CASE kind \in {"m", "am", "arg", "neg", "att", "ml", "blk"} -> {[d |-> 0, ig |-> FALSE, k |-> 1]}
+    CASE kind \in {"m", "am", "arg", "neg", "att", "ml", "blk", "blk2"} -> {[d |-> 0, ig |-> FALSE, k |-> 1]}
       [] kind = "mm" -> {[d |-> 0, ig |-> FALSE, k |-> 1], [d |-> 1, ig |-> FALSE, k |-> 1]}
       [] kind = "two" -> {[d |-> 0, ig |-> FALSE, k |-> 1], [d |-> 0, ig |-> FALSE, k |-> 2]}
-      [] kind = "ig" -> {[d |-> 0, ig |-> TRUE, k |-> 1]}
+      [] kind \in {"ig", "igml", "igend"} -> {[d |-> 0, ig |-> TRUE, k |-> 1]}
       [] OTHER -> {}
 
 \* all matches of the case: [s |-> statement index, d |-> depth, k |-> which one on the line, ig, to |-> last statement]
@@ -84,7 +89,7 @@ Greedy(c) == Keep(YieldedSeq(c), {})
 -----------------------------------------------------------------------------
 (* precedence: what a textual splice needs                                  *)
 Prec(e) == CASE e \in {"atom", "call"} -> 4 [] e = "unary" -> 3 [] e = "mul" -> 2 [] e = "sum" -> 1
-TopOf(repl) == CASE repl \in {"const", "one", "twice", "self", "k2"} -> "call" [] repl = "sum" -> "sum" [] repl = "mul" -> "mul" [] repl = "neg" -> "unary"
+TopOf(repl) == CASE repl \in {"const", "one", "twice", "self", "k2", "ifstmt"} -> "call" [] repl = "sum" -> "sum" [] repl = "mul" -> "mul" [] repl = "neg" -> "unary"
 \* the precedence a replacement must have not to need parentheses where the match stood
 Required(kind) == CASE kind = "am" -> 2 [] kind = "neg" -> 3 [] kind = "att" -> 4 [] OTHER -> 0
 \* the precedence a binding must have not to need parentheses where the template uses it
@@ -102,6 +107,7 @@ Cases == [stmts : UNION {[1..n -> StmtKinds] : n \in 1..MaxStmts}, pat : Pattern
 Sensible(c) == /\ (c.pat = "seq" => c.repl \in {"k2", "self", "const"})
                /\ (c.pat # "seq" => c.repl # "k2")
                /\ (c.pat = "absent" => c.repl = "one" /\ c.bind = "atom")
+               /\ (c.repl = "ifstmt" => \A i \in 1..Len(c.stmts) : c.stmts[i] \in {"m", "ml", "blk", "blk2", "ig", "igml", "igend", "n"})
 
 VARIABLE c
 Init == c \in {x \in Cases : Sensible(x)}
